@@ -844,6 +844,9 @@ impl<F: Read + Write + Seek> CompoundFile<F> {
             Some(stream_id) => stream_id,
             None => not_found!("Parent storage doesn't exist"),
         };
+        if self.minialloc().dir_entry(parent_id).obj_type == ObjType::Stream {
+            invalid_input!("Parent is a stream, not a storage");
+        }
         internal::path::validate_name(name)?;
         self.minialloc_mut().insert_dir_entry(
             parent_id,
@@ -1033,6 +1036,9 @@ impl<F: Read + Write + Seek> CompoundFile<F> {
             Some(stream_id) => stream_id,
             None => not_found!("Parent storage doesn't exist"),
         };
+        if self.minialloc().dir_entry(parent_id).obj_type == ObjType::Stream {
+            invalid_input!("Parent is a stream, not a storage");
+        }
         internal::path::validate_name(name)?;
         let new_stream_id = self.minialloc_mut().insert_dir_entry(
             parent_id,
